@@ -27,10 +27,6 @@ import (
 	"encoding/hex"
 	"encoding/json"
 	"fmt"
-	"go/ast"
-	"go/parser"
-	"go/printer"
-	"go/token"
 	"mime/multipart"
 	"net"
 	"net/http"
@@ -53,6 +49,7 @@ import (
 	"github.com/chrislusf/seaweedfs/weed/pb/filer_pb"
 	"github.com/chrislusf/seaweedfs/weed/s3api"
 
+	"verifharness/c26ast"
 	"verifharness/hx"
 )
 
@@ -720,112 +717,18 @@ func srcDir() string {
 	return filepath.Dir(file)
 }
 
-func nodeText(fset *token.FileSet, n ast.Node) string {
-	var b bytes.Buffer
-	printer.Fprint(&b, fset, n)
-	return strings.Join(strings.Fields(b.String()), " ")
-}
-
-func unq(s string) string {
-	if u, err := strconv.Unquote(s); err == nil {
-		return u
-	}
-	return s
-}
-
-type astRoute struct {
-	handler, action, method, path, hdrKey, hdrRe string
-	queries                                       []string
-	wrapped                                       bool
-}
-
-// parseRoute flattens one `x.Methods(..).Path(..)…HandlerFunc(track(s3a.iam.Auth(s3a.H, ACTION), ".."))….Queries(..)` chain
-func parseRoute(fset *token.FileSet, e ast.Expr) (astRoute, bool) {
-	var r astRoute
-	ok := false
-	for {
-		call, isCall := e.(*ast.CallExpr)
-		if !isCall {
-			break
-		}
-		sel, isSel := call.Fun.(*ast.SelectorExpr)
-		if !isSel {
-			break
-		}
-		var args []string
-		for _, a := range call.Args {
-			args = append(args, unq(nodeText(fset, a)))
-		}
-		switch sel.Sel.Name {
-		case "Methods":
-			r.method = strings.Join(args, ",")
-		case "Path":
-			r.path = strings.Join(args, ",")
-		case "Queries":
-			for i := 0; i+1 < len(args); i += 2 {
-				r.queries = append(r.queries, args[i]+"="+args[i+1])
-			}
-		case "HeadersRegexp":
-			if len(args) == 2 {
-				r.hdrKey, r.hdrRe = args[0], args[1]
-			} else {
-				r.hdrKey, r.hdrRe = "?", strings.Join(args, ",")
-			}
-		case "HandlerFunc":
-			ok = true
-			// track(s3a.iam.Auth(s3a.X, ACTION_Y), "Z")  or  track(s3a.X, "Z")
-			inner := call.Args[0]
-			if c, isC := inner.(*ast.CallExpr); isC && nodeText(fset, c.Fun) == "track" && len(c.Args) > 0 {
-				inner = c.Args[0]
-			}
-			if c, isC := inner.(*ast.CallExpr); isC && strings.HasSuffix(nodeText(fset, c.Fun), ".Auth") && len(c.Args) == 2 {
-				r.wrapped = true
-				r.handler = strings.TrimPrefix(nodeText(fset, c.Args[0]), "s3a.")
-				r.action = nodeText(fset, c.Args[1])
-			} else {
-				r.handler = strings.TrimPrefix(nodeText(fset, inner), "s3a.")
-				r.action = "-"
-			}
-		default:
-			// Host/PathPrefix/Subrouter/... : not a leaf route description
-			return r, false
-		}
-		e = sel.X
-	}
-	return r, ok && r.method != ""
-}
-
 func emitFacts(s *server) {
-	dir := srcDir()
-	fset := token.NewFileSet()
-	pkgs, err := parser.ParseDir(fset, dir, func(fi os.FileInfo) bool { return !strings.HasSuffix(fi.Name(), "_test.go") }, 0)
+	F, err := c26ast.Load(srcDir())
 	must(err)
-	funcs := map[string]*ast.FuncDecl{}
-	for _, p := range pkgs {
-		for _, f := range p.Files {
-			for _, d := range f.Decls {
-				if fd, ok := d.(*ast.FuncDecl); ok && fd.Body != nil {
-					funcs[fd.Name.Name] = fd
-				}
-			}
+	d := func(x string) string {
+		if x == "" {
+			return "-"
 		}
-	}
-	// ---- route table: statements of registerRouter in source order (the per-host loop body counts once: DomainName is empty here)
-	var routes []astRoute
-	if fd := funcs["registerRouter"]; fd != nil {
-		ast.Inspect(fd.Body, func(n ast.Node) bool {
-			if es, ok := n.(*ast.ExprStmt); ok {
-				if r, ok := parseRoute(fset, es.X); ok {
-					routes = append(routes, r)
-				}
-				return false
-			}
-			return true
-		})
+		return x
 	}
 	handlerNames = nil
-	for i, r := range routes {
-		handlerNames = append(handlerNames, r.handler)
+	for i, r := range F.Routes {
+		handlerNames = append(handlerNames, r.Handler)
 		var outs []string
 		if i < len(s.routes) {
 			rt := s.routes[i]
@@ -836,164 +739,27 @@ func emitFacts(s *server) {
 		} else {
 			outs = []string{"missing"}
 		}
-		d := func(x string) string {
-			if x == "" {
-				return "-"
-			}
-			return x
-		}
-		tr.Op("route", []string{hx.I(int64(i)), r.handler, r.action, r.method, hx.HexS(r.path), hx.HexS(strings.Join(r.queries, "&")), d(r.hdrKey), hx.HexS(r.hdrRe)}, outs)
+		tr.Op("route", []string{hx.I(int64(i)), r.Handler, r.Action, r.Method, hx.HexS(r.Path), hx.HexS(strings.Join(r.Queries, "&")), d(r.HdrKey), hx.HexS(r.HdrRe)}, outs)
 	}
-	tr.Op("routes_end", []string{hx.I(int64(len(routes)))}, []string{hx.I(int64(len(s.routes)))})
-
-	// ---- getRequestAuthType: the if/else-if chain as (predicate, result) pairs in order
-	if fd := funcs["getRequestAuthType"]; fd != nil {
-		var pairs []string
-		var walk func(st ast.Stmt)
-		walk = func(st ast.Stmt) {
-			is, ok := st.(*ast.IfStmt)
-			if !ok {
-				return
-			}
-			cond := nodeText(fset, is.Cond)
-			if is.Init != nil {
-				cond = nodeText(fset, is.Init) + ";" + cond
-			}
-			res := "?"
-			if len(is.Body.List) == 1 {
-				if rs, ok := is.Body.List[0].(*ast.ReturnStmt); ok && len(rs.Results) == 1 {
-					res = nodeText(fset, rs.Results[0])
-				}
-			}
-			pairs = append(pairs, hx.HexS(cond)+":"+res)
-			if is.Else != nil {
-				walk(is.Else)
-			}
-		}
-		for _, st := range fd.Body.List {
-			switch x := st.(type) {
-			case *ast.IfStmt:
-				walk(x)
-			case *ast.ReturnStmt:
-				pairs = append(pairs, "-:"+nodeText(fset, x.Results[0]))
-			}
-		}
-		tr.Op("authorder", pairs, nil)
+	tr.Op("routes_end", []string{hx.I(int64(len(F.Routes)))}, []string{hx.I(int64(len(s.routes)))})
+	var pairs []string
+	for _, p := range F.Order {
+		pairs = append(pairs, hx.HexS(p[0])+":"+p[1])
 	}
-	// predicates: pinned text of the is* functions
-	for _, name := range []string{"isRequestJWT", "isRequestSignatureV4", "isRequestSignatureV2", "isRequestPresignedSignatureV4", "isRequestPresignedSignatureV2", "isRequestPostPolicySignatureV4", "isRequestSignStreamingV4"} {
-		if fd := funcs[name]; fd != nil {
-			var body []string
-			for _, st := range fd.Body.List {
-				body = append(body, nodeText(fset, st))
-			}
-			tr.Op("authpred", []string{name, hx.HexS(strings.Join(body, " ; "))}, nil)
-		}
+	tr.Op("authorder", pairs, nil)
+	for _, p := range F.Preds {
+		tr.Op("authpred", []string{p[0], hx.HexS(p[1])}, nil)
 	}
-	// ---- authRequest: the switch arms
-	if fd := funcs["authRequest"]; fd != nil {
-		ast.Inspect(fd.Body, func(n ast.Node) bool {
-			sw, ok := n.(*ast.SwitchStmt)
-			if !ok {
-				return true
-			}
-			for _, cs := range sw.Body.List {
-				cc := cs.(*ast.CaseClause)
-				arm := "?"
-				var stmts []string
-				for _, st := range cc.Body {
-					t := nodeText(fset, st)
-					if strings.HasPrefix(t, "glog.") {
-						continue
-					}
-					stmts = append(stmts, t)
-				}
-				body := strings.Join(stmts, " ; ")
-				switch body {
-				case "return identity, s3err.ErrNone":
-					arm = "pass"
-				case "return identity, s3err.ErrAccessDenied":
-					arm = "denied"
-				case "return identity, s3err.ErrNotImplemented":
-					arm = "notimpl"
-				case "identity, s3Err = iam.isReqAuthenticatedV2(r)":
-					arm = "v2"
-				case "identity, s3Err = iam.reqSignatureV4Verify(r)":
-					arm = "v4"
-				case "identity, found = iam.lookupAnonymous() ; if !found { return identity, s3err.ErrAccessDenied }":
-					arm = "anon"
-				default:
-					arm = "other:" + hx.HexS(body)
-				}
-				if cc.List == nil {
-					tr.Op("authcase", []string{"default", arm}, nil)
-				}
-				for _, e := range cc.List {
-					tr.Op("authcase", []string{nodeText(fset, e), arm}, nil)
-				}
-			}
-			return false
-		})
-		// what follows the switch
-		var tail []string
-		seen := false
-		for _, st := range fd.Body.List {
-			if _, ok := st.(*ast.SwitchStmt); ok {
-				seen = true
-				continue
-			}
-			if seen {
-				t := nodeText(fset, st)
-				if !strings.HasPrefix(t, "glog.") {
-					tail = append(tail, t)
-				}
-			}
+	for _, c := range F.Cases {
+		arm := c[1]
+		if strings.HasPrefix(arm, "other:") {
+			arm = "other:" + hx.HexS(arm[6:])
 		}
-		tr.Op("authtail", []string{hx.HexS(strings.Join(tail, " ; "))}, nil)
+		tr.Op("authcase", []string{c[0], arm}, nil)
 	}
-	// ---- which verifiers each routed handler calls itself
-	seenH := map[string]bool{}
-	for _, r := range routes {
-		if seenH[r.handler] {
-			continue
-		}
-		seenH[r.handler] = true
-		var flags []string
-		if fd := funcs[r.handler]; fd != nil {
-			has := map[string]bool{}
-			ast.Inspect(fd.Body, func(n ast.Node) bool {
-				if c, ok := n.(*ast.CallExpr); ok {
-					if sel, ok := c.Fun.(*ast.SelectorExpr); ok {
-						switch sel.Sel.Name {
-						case "newSignV4ChunkedReader":
-							has["seed"] = true
-						case "isReqAuthenticatedV2":
-							has["v2"] = true
-						case "reqSignatureV4Verify":
-							has["v4"] = true
-						case "doesPolicySignatureMatch":
-							has["policy"] = true
-						case "authUser":
-							has["authuser"] = true
-						case "authRequest":
-							has["authrequest"] = true
-						}
-					}
-				}
-				return true
-			})
-			for _, k := range []string{"seed", "v2", "v4", "policy", "authuser", "authrequest"} {
-				if has[k] {
-					flags = append(flags, k)
-				}
-			}
-		} else {
-			flags = []string{"nosource"}
-		}
-		if len(flags) == 0 {
-			flags = []string{"-"}
-		}
-		tr.Op("hverify", []string{r.handler, strings.Join(flags, ",")}, nil)
+	tr.Op("authtail", []string{hx.HexS(F.Tail)}, nil)
+	for _, v := range F.Verifiers {
+		tr.Op("hverify", []string{v[0], v[1]}, nil)
 	}
 }
 
